@@ -79,6 +79,10 @@ def corpus(ctx, quick):
     cases = []            # (query, kw)
     for _ in range(400 if quick else 4000):
         cases.append((g.program(), {}))
+    # names captured, shadowed and read across nested applied blocks (closure environments)
+    c03 = importlib.import_module("checks.C03")
+    for q in c03.nested_scopes(2, ctx.sub_rng("scopes"), 1000 if quick else 8000):
+        cases.append((q, {}))
     for q in FAILING:
         cases.append((q, {}))
     for q in MANY:
@@ -185,7 +189,7 @@ def run(ctx):
     common.report_broken_obligations(ctx, oblig, bool(ctx.violations))
     ctx.cov.update({
         "evaluations": evaluations, "distinct_nontrivial": len(cases),
-        "rule": "%d executions on the hooked build (shadow map of live operator states; event log of %d state areas replayed through the extracted lifecycle automaton) and on the ASan+UBSan build with a LeakSanitizer check after every case: generated programs (closures, loops, captures), %d programs failing at run time inside sub-expressions/closures/splices, result sets abandoned after 0-6 pulls, byte strings from C14's generator (rejected and accepted), DWARF/abbrev/location/symbol queries on sample binaries, complete and abandoned" % (len(cases), areas, len(FAILING)),
+        "rule": "%d executions on the hooked build (shadow map of live operator states; event log of %d state areas replayed through the extracted lifecycle automaton) and on the ASan+UBSan build with a LeakSanitizer check after every case: generated programs (closures, loops, captures), names captured / shadowed / read across nested applied blocks, %d programs failing at run time inside sub-expressions/closures/splices, result sets abandoned after 0-6 pulls, byte strings from C14's generator (rejected and accepted), DWARF/abbrev/location/symbol queries on sample binaries, complete and abandoned" % (len(cases), areas, len(FAILING)),
         "samples": [], "lifecycle_verdicts": verdicts, "known_leaks_seen": leaks_known,
         "traces_validated_against_impl": areas, "violations_by_kind": viol,
         "not_a_theorem": "absence of memory errors / undefined behaviour / leaks in the C++ is sanitizer evidence on the executed corpus, not proved",
